@@ -1,6 +1,7 @@
 Require Extraction.
 Require Import ExtrOcamlBasic.
-From LedgerV Require Import Base.Prelude Base.ExtractHelpers Gen.StatusOfCount Gen.CheckingStyle Gen.NameChecks Model.Errors.
+From LedgerV Require Import Base.Prelude Base.ExtractHelpers Gen.StatusOfCount Gen.CheckingStyle Gen.NameChecks Gen.LineReader Model.Errors Model.ErrorsReader.
 Extraction "model_C12.ml" h_add h_mul h_div h_mod h_opp h_ltb h_eqb h_qred h_qmake h_qnum h_qden
   session parse_file items item_fault item_ok file_clean expected status_of_count
-  run_session resolve_files checking_style unknown_name_reaction position_checked.
+  run_session resolve_files checking_style unknown_name_reaction position_checked
+  resolve run_xsession expand_files src_rd.
